@@ -4,6 +4,7 @@
 #         (releases, pre-releases, build-metadata variants) against a reference Cargo matcher written twice from
 #         the semver crate's documentation (field-wise rules and the "equivalent to" bound tables; the two
 #         transcriptions must agree on every release, else exit 2) with exactly the two pinned deviations.
+#         + the pre-release named by the requirement over the identifier alphabet [0-9A-Za-z-] (case, hyphens, x / X).
 #  dep    the object through which the cargo interpreter asks (manifest.Dependency: accepts_version and api are memoised,
 #         update_version replaces the requirement): every operation sequence up to a depth bound on a fresh object, every
 #         read against the reference matcher for the requirement the object has at that moment.
@@ -2248,7 +2249,8 @@ def main():
               '"equivalent to" bound tables; both transcriptions agree on every release of the grid) with the two deviations pinned by '
               'unittests/cargotests.py: partial =/> pad with zero; an all-zero caret means <1.0.0')
     ck.assume('x and X are wildcard characters like * (1.x, 1.2.X, x): the semver crate\'s parser accepts the three of them in the same '
-              'places; only the bare and the I.x / I.J.x / I.x.x spellings are enumerated')
+              'places; only the bare and the I.x / I.J.x / I.x.x spellings are enumerated; x / X after the "-" of a full version is a pre-release '
+              'identifier like any other (semver reads a pre-release only after a numeric patch), compared as written')
     ck.assume('Dependency / Cargo.lock families: the requirement in force is the one given at construction or by the last '
               'update_version(); "the most recent satisfying the constraints" (docstring of _resolve_package) = the highest version in '
               'SemVer order among those of that crate in Cargo.lock which the reference matcher accepts; a lock containing a version that '
@@ -2276,7 +2278,11 @@ def main():
               rule='req: every single comparator ({none,^,~,=,<,<=,>,>=} x every I / I.J / I.J.K over {0,1,2}, wildcards I.*, I.J.*, I.*.*, '
                    '7 pre-release forms; + spacing variants, "", "*") and every ordered comma pair of them x a version grid ({0..3}^3 '
                    'releases, partial and +build spellings, 24 pre-releases), real cargo_parse(req)(version) on every point vs the reference '
-                   'matcher; a supplementary multi-digit grid ({2,10} vs {1,2,3,9,10,11}^3); the x / X spellings of every wildcard. '
+                   'matcher; a supplementary multi-digit grid ({2,10} vs {1,2,3,9,10,11}^3); the x / X spellings of every wildcard; '
+                   'pre-release identifiers of the requirement: every operator x 48 (thorough 88) pre-releases covering [0-9A-Za-z-] '
+                   '(numeric, upper / lower / mixed case, hyphens, x / X as identifiers; one and two identifiers) on 1.2.3 and 0.0.3 x '
+                   'every version of that triple with a pre-release of the same set + neighbouring releases, and every range '
+                   '">=T-a, <T-b" / ">T-a, <=T-b" on 1.2.3. '
                    'dep: every sequence of <=4 (thorough 5) operations over {read accepts_version on 12 versions, read api, '
                    'update_version(r) for r in 6 (thorough 8) requirements that pairwise differ on the version list} x every initial '
                    'requirement x {string, table, workspace table, workspace string} + a dependency without version, each on a fresh '
